@@ -109,6 +109,18 @@ def rule_extend(ctx, rid="R16.2"):
             if isinstance(n, ast.If) and norm(n.test) == "%s is None" % tc.id and any(
                     norm(s) == "%s = %s.TYPE_CHECKER" % (tc.id, parent) for s in n.body):
                 tc_ok = True
+        # or through a helper: <tc> = helper(<parent>, <tc>) where helper returns <p0>.TYPE_CHECKER when <p1> is None and <p1> otherwise
+        for n in walk_body(f):
+            if isinstance(n, ast.Assign) and any(isinstance(t, ast.Name) and t.id == tc.id for t in n.targets) and isinstance(n.value, ast.Call):
+                for t in calls.callee(f, n.value):
+                    if t.kind == "func" and t.func is not None and [norm(a) for a in n.value.args] == [parent, tc.id] and len(t.func.params) == 2:
+                        g = t.func
+                        p0, p1 = g.params
+                        carried = any(isinstance(x, ast.If) and norm(x.test) == "%s is None" % p1 and any(
+                            isinstance(y, ast.Return) and norm(y.value) == "%s.TYPE_CHECKER" % p0 for y in x.body) for x in walk_body(g))
+                        given = any(isinstance(x, ast.Return) and norm(x.value) == p1 for x in g.body)
+                        if carried and given:
+                            tc_ok = True
     if tc_ok:
         r.ok(site(f, c) + " [type_checker]", "parent's TYPE_CHECKER unless one is given")
     else:
